@@ -130,6 +130,10 @@ func (s *sqSubj[T]) ModelApply(op Op) {
 	case "Peek":
 	case "Clear":
 		s.m = nil
+	case "Fill":
+		for _, i := range fillIdx(op.A) {
+			s.modelPut(s.d.At(i))
+		}
 	default:
 		panic("sq model: unknown op " + op.N)
 	}
@@ -159,6 +163,10 @@ func (s *sqSubj[T]) Step(op Op, o *Oracle) {
 		}
 	case "Clear":
 		s.c.Clear()
+	case "Fill":
+		for _, i := range fillIdx(op.A) {
+			s.put(s.d.At(i))
+		}
 	default:
 		panic("sq: unknown op " + op.N)
 	}
